@@ -235,6 +235,26 @@ class Checker:
                     rec.check(ok, f"c12:const-not-ignored-on-input:{label}:{k}",
                               f"input value {t!r} for constant {k!r} of {label} must be ignored (constant {v!r} kept, object equal): {detail}",
                               case=case, fns=FNS_CONST)  # fmt: skip
+                if label.startswith("I:"):
+                    # the same schema as the plugin system hands it out when no version is stated
+                    try:
+                        from metador_core.plugins import schemas as _schemas
+
+                        S0 = _schemas.get(label[2:].split("@")[0].strip())
+                    except Exception:
+                        S0 = None
+                    if S0 is not None and S0 is not S:
+                        try:
+                            with watchdog(10):
+                                p0 = S0.parse_obj(d)
+                            out0 = p0.json_dict()
+                            ok0 = canon(out0.get(k, "<absent>")) == canon(v)
+                            det0 = f"parsed {k}={sl.short(repr(out0.get(k, '<absent>')), 60)}"
+                        except Exception as e:
+                            ok0, det0 = False, f"raised {type(e).__name__}: {sl.short(str(e), 100)}"
+                        rec.check(ok0, f"c12:const-not-ignored-on-input:versionless-handle:{k}",
+                                  f"input value {t!r} for constant {k!r} of {label} obtained WITHOUT a version must be ignored (constant {v!r} kept): {det0}",
+                                  case=case, fns=FNS_CONST + ["plugin/metaclass.py:UndefVersion._mark_class"])  # fmt: skip
 
 
 def getattr_by_alias(p, k):
